@@ -4,7 +4,7 @@ import common, gillcheck
 
 def run(ctx):
     drv = common.LeanDriver()
-    gillcheck.correspondence(ctx, drv, True, ctx.scale(400, 4000), "Gillespie_SIS")
+    gillcheck.correspondence(ctx, drv, True, ctx.scale(1500, 6000), "Gillespie_SIS")
     cases = gillcheck.law_cases(ctx, True, ctx.scale(3, 4), ctx.scale(30, 300))
     if not ctx.thorough:
         cases = ctx.rng.sample(cases, min(len(cases), 150))
